@@ -670,7 +670,7 @@ def do_select(acc, name, n, ptk, method, order):
 
 # -- arrays returned by f stay f's property ----------------------------------------------------------
 # f returns a read-only array, or (memoised f) the array it stored for that point: the library may read it, not write
-# into it.  Oracle: same result as for a fresh writable array per call, the store unchanged, repeated calls identical.
+# into it.  Oracle: the closed-form Jacobian / gradient for every kind of result array, and the store unchanged.
 
 def work_outputs(chunk):
     import numdifftools as nd
@@ -697,19 +697,26 @@ def work_outputs(chunk):
             if key not in store:
                 store[key] = (np.array(t, copy=True), np.array(base(t)))
             return store[key][1]
-        res = {}
+        if cls == 'Jacobian':
+            want = A + 0.1 * np.array([[x[1], x[0], 0.0], [0.0, x[2], x[1]]])
+        else:
+            want = A[0] + 0.1 * np.array([x[2], 0.0, x[0]])
+        allow = 1e-6 * (1.0 + float(np.max(np.abs(want))))
         for name, g in (('fresh', base), ('readonly', readonly), ('memo', memo), ('memo-again', memo)):
             fw.fresh_library_state()
             status, val = call(lambda: getattr(nd, cls)(g, method=method, order=order)(x))
-            res[name] = (status, fw.obs(val) if status == 'ok' else val)
-        damaged = [k for k, (t, r) in store.items() if not np.array_equal(np.asarray(r), np.asarray(base(t)))]
-        for name in ('readonly', 'memo', 'memo-again'):
-            same = res[name] == res['fresh']
             prob = None
-            if not same:
-                prob = '%s: %s; with a fresh array per call: %s' % (name, str(res[name])[:150], str(res['fresh'])[:150])
-            elif name == 'memo-again' and damaged:
-                prob = '%d of the %d arrays stored by the memoised f were modified by the library' % (len(damaged), len(store))
+            if status != 'ok':
+                prob = '%s' % (val,)
+            else:
+                val = np.asarray(val)
+                err = float(np.max(np.abs(val - want))) if val.shape == want.shape else float('inf')
+                if not err <= allow:
+                    prob = 'max error %.3g > %.3g (got %r, closed form %r)' % (err, allow, val.tolist(), want.tolist())
+            if prob is None and name == 'memo-again':
+                damaged = [k for k, (t, r) in store.items() if not np.array_equal(np.asarray(r), np.asarray(base(t)))]
+                if damaged:
+                    prob = '%d of the %d arrays stored by the memoised f were modified by the library' % (len(damaged), len(store))
             acc.case(('outputs', cls, method, order, name), nontrivial=True, cell='outputs/%s' % name.split('-')[0], outcome=prob is None)
             if prob:
                 acc.violation('C03:%s:result-array-of-f-%s:%s' % (cls, name.split('-')[0], method),
